@@ -27,7 +27,7 @@ func needsSession(k int) bool {
 }
 
 func foreignStep(P string) {
-	s := newStepWorld(stepShape{mods: vModVikja | vModOdal | vModDagaz})
+	s := newStepWorld(stepShape{mods: vModVikja | vModOdal | vModDagaz, symIDs: true})
 	if s.hasAction {
 		assumeValidTS(s.actSec, s.actNanos)
 	}
